@@ -89,6 +89,21 @@ def check(rep, tier):
     except Exception as e:
         recP["error"] = e
     recs.append(recP)
+    # fixed corpus: another weight c of the vial-dependent part of the pre-exponential factor k = 10^-(a + c xi) (c = 1 is the packaged default), 1D and 0D
+    for dimK, cK in (("spatial_1D", 0.5), ("homogeneous", 0.0)):
+        try:
+            progK = dict(start=10, end=-50, rate=2.0 / 60, holds=[], t_tot=3600.0 if dimK != "homogeneous" else 3 * 3600.0, dt=1.0)
+            hK, dK, KK = (0.05, 0.05, 200) if dimK != "homogeneous" else (0.01, 0.01, 50)
+            exK = {"kinetics": {"c": cK}}
+            SK = sr.make(dim=dimK, conf="shelf", height=hK, diameter=dK, K=KK, prog=progK, extra=exK)
+            dtK, _ = sr.step_info(SK)
+            if dimK != "homogeneous":
+                progK["t_tot"] = float(int(dtK * 9800)); SK = sr.make(dim=dimK, conf="shelf", height=hK, diameter=dK, K=KK, prog=progK, extra=exK)
+            recK = dict(label="%s/shelf kinetics c=%g (fixed corpus)" % (dimK, cK), dim=dimK, conf="shelf", S=SK, dt=dtK, prog=progK, error=None, must_complete=True)
+            sr.run(SK)
+        except Exception as e:
+            recK["error"] = e
+        recs.append(recK)
     # a LONG 1D run (more than 10000 steps: the cooling stage is saved with a stride): the nucleation step and field are those of an independent
     # numpy re-simulation that accumulates the hazard on every step
     try:
